@@ -1,6 +1,7 @@
 package vc
 
 import (
+	"go/token"
 	"go/ast"
 	"time"
 	"sync"
@@ -481,7 +482,17 @@ func (p *Prog) InstrMods(in ssa.Instruction, m *ModSet) {
 
 func (p *Prog) instrMods(in ssa.Instruction, m *ModSet) {
 	switch x := in.(type) {
+	case *ssa.UnOp:
+		// loading an array value makes a snapshot row
+		if x.Op == token.MUL {
+			if et, ok := arrayElem(x.Type()); ok {
+				m.Comps[arrComp(et)] = true
+			}
+		}
 	case *ssa.Store:
+		if et, ok := arrayElem(x.Val.Type()); ok {
+			m.Comps[arrComp(et)] = true // an array value is copied into the variable's row
+		}
 		c := p.compForAddr(x.Addr)
 		if c == "" {
 			m.All = true
